@@ -136,7 +136,8 @@ def validate(traces, workdir, module="TraceStore", jvms=12, chunk=25, timeout=90
     for i, r in enumerate(results):
         out = r["out"]
         if debug:
-            idx = [m.start() for m in re.finditer(r'<<\s*"MISMATCH"', out)]
+            flt = os.environ.get("VERIF_DEBUG_FILTER", "")
+            idx = [m.start() for m in re.finditer(r'<<\s*"MISMATCH",\s*"' + flt, out)]
             for a in idx[:12]:
                 b = out.find('<<"VIOL"', a)
                 b = b if b > a else out.find('<< "VIOL"', a)
